@@ -187,6 +187,8 @@ class Repo(object):
             except SyntaxError as e:
                 raise AnalysisError('%s does not parse: %s' % (rel, e))
             self._mods[rel] = PyModule(rel, text, tree)
+            self._mods[rel].repo = self
+            self._mods[rel].tree._pymodule = self._mods[rel]
         return self._mods[rel]
 
     def py_files(self, subdir):
